@@ -50,12 +50,14 @@ def gen(rng: Any, tier: str, i: int) -> Any:
         # PowerManagingActor with regular and operating-point actors, long silences, clean-up timer (C11's driver/oracle)
         from . import c11
 
-        case = c11.gen(rng, tier, i)
-        for _ in range(20):
-            if any(e["k"] == "advance" and e["dt"] > 60 for e in case["events"]):
+        case = c11.gen(rng, tier, len(c11.DOC_CASES) + i)
+        for _ in range(40):
+            if "events" in case and any(e["k"] == "advance" and e["dt"] > 60 for e in case["events"]):
                 break
-            case = c11.gen(rng, tier, i)
-        case["kind"] = "actor-expiry"
+            case = c11.gen(rng, tier, len(c11.DOC_CASES) + i)
+        if "events" not in case:
+            return None
+        case = dict(case, kind="actor-expiry")
         return case
     sys, excl = pm.gen_sys(rng)
     n = rng.choice([1, 2, 2, 3, 3, 4, 4, 5, 6])
